@@ -185,6 +185,8 @@ impl<D: DictionaryAccess> DictBuilder<D> {
 
     /// Read the csv lexicon from either a file or an in-memory buffer
     pub fn read_lexicon<'a, T: AsDataSource<'a> + 'a>(&mut self, data: T) -> SudachiResult<usize> {
+        // rows read from now on may carry unresolved split units
+        self.resolved = false;
         let report = ReportBuilder::new(data.name()).read();
         let result = match data.convert() {
             DataSource::File(p) => self.lexicon.read_file(p),
